@@ -74,6 +74,7 @@ type xextern struct {
 	noargs   bool     // the call's arguments are not evaluated (store reads keyed by ctx/denom: the result is an input)
 	argIdx   []int    // if set: only these argument positions (0-based) are evaluated and passed (ctx, ids, names are skipped)
 	field    bool     // key "T.Field": a field read of a value of opaque type T (a projection, not a call)
+	fresh    bool     // the result is an allocation handed over to the caller (e.g. the mutated argument of a …Mut function)
 }
 
 type xspec struct {
@@ -487,6 +488,9 @@ func (t *xtr) callExtern(x *xextern, args []xval, at ast.Node) xval {
 	if x.res == tyBool {
 		r.lean = "(" + r.lean + " = true)"
 	}
+	if x.fresh {
+		r.alloc = t.newAlloc()
+	}
 	return r
 }
 
@@ -672,6 +676,11 @@ func (t *xtr) expr(e ast.Expr, env *xenv) xval {
 		}
 		t.fail("%s is read before it is written and is not an input", k)
 	}
+	if id, ok := e.(*ast.Ident); ok {
+		if v, reassigned := env.vars[id.Name]; reassigned && t.pnames[id.Name] != "" {
+			return v // a scalar parameter that was assigned to
+		}
+	}
 	if b, ok := t.binds[t.norm(e)]; ok {
 		return t.param(b)
 	}
@@ -818,6 +827,8 @@ func (t *xtr) binary(e *ast.BinaryExpr, env *xenv) xval {
 		return xval{lean: "(" + x.lean + " - " + y.lean + ")", ty: ty}
 	case token.MUL:
 		return xval{lean: "(" + x.lean + " * " + y.lean + ")", ty: ty}
+	case token.REM: // Go's % truncates; a zero divisor is a run-time panic
+		return xval{lean: t.bind("I64.rem " + x.lean + " " + y.lean), ty: ty}
 	case token.EQL:
 		return xval{lean: "(" + x.lean + " = " + y.lean + ")", ty: tyBool}
 	case token.NEQ:
@@ -1039,8 +1050,16 @@ func (t *xtr) assign(name string, v xval, env *xenv, define bool, nested bool) {
 	if name == "_" {
 		return
 	}
-	if _, isParam := t.pnames[name]; isParam {
-		t.fail("assignment to parameter %s", name)
+	if pn, isParam := t.pnames[name]; isParam {
+		b, bound := t.binds[pn]
+		if !bound || define || !compat(b.ty, v.ty) || (b.ty != tyI64 && b.ty != tyDur) {
+			t.fail("assignment to parameter %s", name)
+		}
+		if v.ty == tyLit {
+			v.ty = b.ty
+		}
+		env.vars[name] = v // a native scalar parameter used as a local: later reads see the new value
+		return
 	}
 	if _, isAlias := t.aliases[name]; isAlias {
 		t.fail("assignment to %s, which the translation treats as a read-only copy", name)
@@ -1133,6 +1152,15 @@ func (t *xtr) seq(list []ast.Stmt, env *xenv, ind string, depth int) string {
 		}
 		return t.seq(rest, env, ind, depth)
 	case *ast.AssignStmt:
+		if (s.Tok == token.ADD_ASSIGN || s.Tok == token.SUB_ASSIGN) && len(s.Lhs) == 1 && len(s.Rhs) == 1 && identName(s.Lhs[0]) != "" {
+			op := token.ADD
+			if s.Tok == token.SUB_ASSIGN {
+				op = token.SUB
+			}
+			v := t.binary(&ast.BinaryExpr{X: s.Lhs[0], Op: op, Y: s.Rhs[0]}, env)
+			t.assign(identName(s.Lhs[0]), v, env, false, depth > 0)
+			return t.seq(rest, env, ind, depth)
+		}
 		if s.Tok != token.DEFINE && s.Tok != token.ASSIGN {
 			t.fail("unsupported assignment operator in %s", show(s))
 		}
